@@ -24,6 +24,37 @@ CLAIMED = {
    technique='Coq proof (all images; lz4 round trip + bincode round trip) over source-derived tables and a serializer-derived format table + differential correspondence on the real codec',
    design='5/C13'),
 }
+
+FNOTE = ' Frame-level model tied to the code on every run: the real code (real Apps under the single-threaded executor, real renet over loopback) and the extracted model replay the same generated histories and must agree on every received message, published state, tracker statistic and on the world of every peer after EVERY frame; the executable order of Update, delivery and connection events are oracle inputs read from the real run. Property oracle evaluated on the same real traces.'
+FTB = 'Modelled-not-verified (tied only by the correspondence): Bevy scheduler/change detection/Commands/hierarchy/States, renet reliable ordered channel; the harness pins the single-threaded executor (order-dependent behaviour is explored through the per-process random index order); trusted: Coq kernel, extraction (ExtrOcamlBasic), OCaml driver (incl. permutation of independent in-flight messages), Rust harness, oracles.'
+CLAIMED.update({
+ 'C02': dict(
+   text='Coq theorems over an event-level model of the replication of one component key (write, change-detector run with its token, send, delivery with relay-only-if-changed on the host, join with snapshot; Abs/Values.v, mirroring sync_detect / signal_component_changed / apply_component_change): for ANY number of clients and EVERY interleaving of the atomic events of all peers, if writes by different peers are separated by a drain and a joiner does not write before its join settled, every peer of the session holds the most recent write at every quiescent state, joiners included (C02_values_converge, C02_every_quiescent_state, C02_joiner_gets_current_value). The unrestricted statement is refuted with a machine-checked witness for the join window (known finding S22).' + FNOTE + ' The event-level model is tied the same way: its executable step function replays the event sequence extracted from every real trace (writes, one detect+send per real frame, one delivery per received update, joins) and must reproduce the value shown after every frame.',
+   note='Layer A is an abstraction by hand (atomic handlers, no ticks, one key at a time, values with Leibniz equality: NaN-like values outside); its theorems are about that model. ' + FTB,
+   technique='Coq proof (invariants by induction over event traces, all N, all interleavings) + trace replay of the abstract model + per-frame differential correspondence of the frame-level model',
+   design='5/C02'),
+ 'C04': dict(
+   text='Coq theorems over the frame-level model (Sync/Model.v), for ALL peer states, ALL executable orders and ALL oracles: every component update in a frame output is a copy of a received message (relay) or concerns a tracked uuid and a type registered with sync_component on this peer; unregistered types are never originated; a component excluded whenever its detector runs is never queued; asset updates are relays or belong to an enabled class and advertise this peer; a never-marked entity is never mentioned, never announced and not tracked; every snapshot message is justified on the state the snapshot was built in (registered, not excluded, class enabled); over all traces the invariants hold in every reachable state and a type no peer registered never travels on any link.' + FNOTE,
+   note='Per-originator attribution of DELIVERED messages is not expressible (messages carry no origin): proved is registered-on-some-peer plus the per-emitter statements. Hypothesis order_ok (a detector exists only for a registered type) is discharged on every run by the schedule audit of the driver. ' + FTB,
+   technique='Coq proof (generic frame invariant preserved by every system and command; induction over global traces) + per-frame differential correspondence + receive-tap oracle',
+   design='5/C04'),
+ 'C10': dict(
+   text='Coq theorems over the event-level value model (Abs/Values.v): while one peer alone writes the key — any write sequence, every interleaving of all peers events, any number of clients, joins — every value any peer shows was written and the sequence any other peer displays (third peers behind the relay included) is a subsequence of the written values in order (C10_single_writer), ending at quiescence with the last one (C10_ends_with_last); the host relay loses nothing. The order claim with the HOST as writer and a join between its detector run and its send is refuted with a machine-checked witness (known finding S21).' + FNOTE + ' The event-level model replays every real trace (see C02).',
+   note='Layer A is an abstraction by hand (see C02). ' + FTB,
+   technique='Coq proof (position invariant into the written sequence, induction over event traces) + trace replay of the abstract model + per-frame differential correspondence; oracle: displayed values after every real frame form a subsequence',
+   design='5/C10'),
+ 'C16': dict(
+   text='Coq theorems over to_skinned_mapper / to_skinned_mesh / apply_component_change of the frame-level model: for any two peers with arbitrary local entity-id spaces, any joint list (any length, order, repeats) of synchronized entities and any bind poses, what the sender announces decodes on the receiver to the same number of joints, in order, each the receiver replica of the same uuid, with equal bind poses (C16_joints_translated, C16_same_joint_count); a received mapper is installed as exactly the translated mesh, replacing the old value (C16_received_mapper_installed).' + FNOTE,
+   note='Delivery through the snapshot when a SkinnedMesh and its joints live in different archetypes and the snapshot spans several frames (suspected S13) is not exercised: the model orders a snapshot by entity id, the real code by archetype. ' + FTB,
+   technique='Coq proof (induction over joint lists; case analysis of the apply function) + per-frame differential correspondence on skinned-mesh histories',
+   design='5/C16'),
+ 'C17': dict(
+   text='Coq theorems over the nine fix_* systems of the frame-level model, for ALL peer states, ALL executable orders, ALL oracles: a trigger component added since the system last ran gets its companions by the end of the frame (wherever the scheduler placed the system; despawned meanwhile = nothing happens), all of them when nobody else inserts a lone one; however the component arrived, one further frame later they are there; a fix command changes nothing but the companions it inserts (values AND ticks of every other component, queue, tokens, outgoing messages, links, maps untouched), so the change detectors queue exactly what they would have queued; entities that already have the companions are left alone.' + FNOTE,
+   note='The Visibility system fires only if BOTH companions are absent (as the Rust query says): a lone ViewVisibility inserted by someone else disables it (proved as a lemma, hypothesis companions_reserved). ' + FTB,
+   technique='Coq proof (tick invariants, induction over the system list of a frame) + per-frame differential correspondence; oracle: companions present after every frame',
+   design='5/C17'),
+})
+
 PENDING = {
  'C01': 'protocol model under construction; check not built yet',
  'C02': 'protocol model under construction; check not built yet',
